@@ -96,6 +96,16 @@ Theorem C15_lookup_spec : forall m item k, wf (VMap m) -> wf item -> as_key item
        end).
 Proof. exact lookup_spec. Qed.
 
+(* `k in m` (and containing) hold exactly when some entry's key equals k by value — whatever
+   value that entry stores, an undefined or none value included — and then m[k] is that value *)
+Theorem C15_in_iff_key_present : forall m item k, wf (VMap m) -> wf item -> as_key item = Some k ->
+  (contains (VMap m) item = ROk true <-> exists k' v, In (k', v) m /\ key_norm k' = key_norm k) /\
+  (vm_in item (VMap m) = ROk (VBool true) <-> exists k' v, In (k', v) m /\ key_norm k' = key_norm k) /\
+  (test_containing (VMap m) item = ROk true <-> exists k' v, In (k', v) m /\ key_norm k' = key_norm k) /\
+  (forall k' v, In (k', v) m -> key_norm k' = key_norm k ->
+     contains (VMap m) item = ROk true /\ get_item_map m item = ROk v).
+Proof. exact in_map_iff_key_present. Qed.
+
 (* the linear scan and the hash lookup of get_attr agree on every map, so the size cutoff
    (Gen.attr_scan_cutoff) is unobservable *)
 Theorem C15_get_attr_scan_eq_hash : forall m attr,
@@ -131,6 +141,7 @@ Print Assumptions C15_vcmp_total_order.
 Print Assumptions C15_key_norm_sound.
 Print Assumptions C15_lookup_spec.
 Print Assumptions C15_lookup_after_inserts.
+Print Assumptions C15_in_iff_key_present.
 
 (* non-vacuity *)
 Definition ex_map1 := VMap [(KInt I64 1, VStr [120%N] false); (KStr [97%N] true, VArr [VNone; VFloat S754_nan])].
@@ -146,6 +157,12 @@ Example C15_ex_float_int :
 Proof. repeat split; vm_compute; reflexivity. Qed.
 Example C15_ex_fixed_order :
   vcmp d2_m1 d2_m2 = Lt /\ vcmp d2_a1 d2_a2 = Gt /\ vcmp d2_a2 d2_a3 = Lt /\ vcmp d2_a1 d2_a3 = Lt.
+Proof. repeat split; vm_compute; reflexivity. Qed.
+Example C15_ex_in_with_undefined_value :
+  wf (VMap [(KStr [107%N] true, VUndef); (KInt U64 1, VNone)]) /\
+  vm_in (VStr [107%N] false) (VMap [(KStr [107%N] true, VUndef); (KInt U64 1, VNone)]) = ROk (VBool true) /\
+  vm_in (VInt I128 1) (VMap [(KStr [107%N] true, VUndef); (KInt U64 1, VNone)]) = ROk (VBool true) /\
+  vm_subscript_map false (VMap [(KStr [107%N] true, VUndef)]) (VStr [107%N] true) = ROk VUndef.
 Proof. repeat split; vm_compute; reflexivity. Qed.
 Example C15_ex_lookup :
   get_item_map [(KInt I64 1, VBool true)] (VInt U128 1) = ROk (VBool true) /\
